@@ -227,6 +227,42 @@ Proof.
     replace ((65 <=? d) && (d <=? 90)) with false by lia. lia.
 Qed.
 
+Lemma doubled_prefix_other base p : base <> 16 -> base <> 2 -> doubled_prefix base p = false.
+Proof.
+  intros H16 H2. unfold doubled_prefix.
+  replace (base =? 16) with false by lia. replace (base =? 2) with false by lia. reflexivity.
+Qed.
+
+Lemma caseeq_second p c1 c2 : caseeq p [c1; c2] = true -> tolower (peek (tl p)) = tolower c2.
+Proof. intros H. apply caseeq2_split in H. destruct H as [a [b [r [-> [_ Hb]]]]]. exact Hb. Qed.
+
+Lemma tolower_x_toupper b : tolower b = 120 -> toupper b = 88.
+Proof. intros H. apply tolower_120 in H. destruct H as [-> | ->]; reflexivity. Qed.
+
+(* the digits of a valid hexadecimal / binary constant never begin with a second prefix *)
+Lemma hex_not_doubled d ds sfx : forallb (is_digit_of 16) ds = true ->
+  doubled_prefix 16 ((d :: ds) ++ spell_isuffix sfx) = false.
+Proof.
+  intros Hds. unfold doubled_prefix. change (16 =? 2) with false. change (16 =? 16) with true. cbn [andb orb].
+  rewrite orb_false_r.
+  destruct (caseeq ((d :: ds) ++ spell_isuffix sfx) [48; 120]) eqn:E; [|reflexivity].
+  apply caseeq_second in E. change (tolower 120) with 120 in E. apply tolower_x_toupper in E.
+  exfalso. exact (second_not_x d ds sfx Hds E).
+Qed.
+
+Lemma bin_not_doubled d ds sfx : forallb (is_digit_of 2) ds = true ->
+  doubled_prefix 2 ((d :: ds) ++ spell_isuffix sfx) = false.
+Proof.
+  intros Hds. unfold doubled_prefix. change (2 =? 16) with false. change (2 =? 2) with true. cbn [andb orb].
+  destruct (caseeq ((d :: ds) ++ spell_isuffix sfx) [48; 98]) eqn:E; [|reflexivity].
+  apply caseeq_second in E. change (tolower 98) with 98 in E. exfalso.
+  cbn [app tl] in E. destruct ds as [|d2 ds].
+  - cbn [app] in E. pose proof (suffix_first sfx) as H. cbv zeta in H.
+    destruct H as [H | [H | [H | [H | H]]]]; rewrite H in E; discriminate E.
+  - cbn [app peek] in E. cbn [forallb] in Hds. apply andb_prop in Hds. destruct Hds as [Hd2 _].
+    rewrite bindig_01 in Hd2. apply tolower_98 in E. lia.
+Qed.
+
 Theorem scan_int_accepts k : valid_iconst k = true ->
   scan_int (spell_iconst k) =
     Some (base_radix (ic_base k), N.min (iconst_value k) umax, suffix_has_l (ic_suffix k), suffix_has_u (ic_suffix k)).
@@ -245,7 +281,7 @@ Proof.
     { unfold scan_base. cbn [app caseeq peek]. rewrite Ht.
       replace (d =? tolower 48) with false by (cbv [tolower isupper]; cbn; lia).
       cbn [andb]. replace (d =? 48) with false by lia. reflexivity. }
-    rewrite Hbase. cbn [fst snd].
+    rewrite Hbase. cbn [fst snd]. rewrite doubled_prefix_other by discriminate.
     rewrite strtoul_plain; [|exact Hb|discriminate|exact Hds|exact Hsfx|intros E; discriminate E].
     cbn [fst snd]. rewrite scan_suffix_accepts. reflexivity.
   - (* octal *)
@@ -257,7 +293,7 @@ Proof.
       - cbn [caseeq]. replace (tolower b2 =? tolower 120) with false by (change (tolower 120) with 120; lia).
         replace (tolower b2 =? tolower 98) with false by (change (tolower 98) with 98; lia).
         rewrite !andb_false_r. reflexivity. }
-    rewrite Hbase. cbn [fst snd].
+    rewrite Hbase. cbn [fst snd]. rewrite doubled_prefix_other by discriminate.
     change (48 :: ds ++ spell_isuffix sfx) with ((48 :: ds) ++ spell_isuffix sfx).
     rewrite strtoul_plain; [|exact Hb|discriminate| |exact Hsfx|intros E; discriminate E].
     + cbn [fst snd]. rewrite scan_suffix_accepts. reflexivity.
@@ -268,6 +304,7 @@ Proof.
     assert (Hbase : scan_base (48 :: (if up then 88 else 120) :: (d :: ds') ++ spell_isuffix sfx) = (16, (d :: ds') ++ spell_isuffix sfx)).
     { unfold scan_base. cbn [app caseeq nth skipn]. rewrite <- hexdig_isxdigit, Hd. destruct up; reflexivity. }
     rewrite Hbase. cbn [fst snd].
+    rewrite hex_not_doubled by (cbn [forallb] in Hds; apply andb_prop in Hds; tauto).
     rewrite strtoul_plain; [|exact Hb|discriminate|exact Hds|exact Hsfx|].
     + cbn [fst snd]. rewrite scan_suffix_accepts. reflexivity.
     + intros _ _. apply second_not_x. cbn [forallb] in Hds. apply andb_prop in Hds. tauto.
@@ -277,6 +314,7 @@ Proof.
     assert (Hbase : scan_base (48 :: (if up then 66 else 98) :: (d :: ds') ++ spell_isuffix sfx) = (2, (d :: ds') ++ spell_isuffix sfx)).
     { unfold scan_base. cbn [app caseeq nth skipn]. rewrite bindig_01 in Hd. rewrite Hd. destruct up; reflexivity. }
     rewrite Hbase. cbn [fst snd].
+    rewrite bin_not_doubled by (cbn [forallb] in Hds; apply andb_prop in Hds; tauto).
     rewrite strtoul_plain; [|exact Hb|discriminate|exact Hds|exact Hsfx|intros E; discriminate E].
     cbn [fst snd]. rewrite scan_suffix_accepts. reflexivity.
 Qed.
@@ -358,10 +396,6 @@ Qed.
 (* ------------------------------------------------------------------ *)
 (* rejection: what convert_pp_int accepts is in the grammar            *)
 (* ------------------------------------------------------------------ *)
-(* the one family outside the grammar that the C code accepts: after chibicc has skipped 0x,
-   strtoul(.., 16) skips a second 0x itself - 0x0x1 is the int 1 *)
-Definition known_bad (s : list N) : bool := caseeq s [48; 120; 48; 120].
-
 Lemma caseeq_0x p : caseeq p [48; 120] = true -> exists x r, p = 48 :: x :: r /\ (x = 120 \/ x = 88).
 Proof.
   intros H. apply caseeq2_split in H. destruct H as [a [b [r [-> [Ha Hb]]]]].
@@ -410,10 +444,11 @@ Proof.
   exists ds, sfx. repeat split; assumption.
 Qed.
 
-Theorem scan_int_sound s r : isdigit (peek s) = true -> known_bad s = false -> scan_int s = Some r ->
+Theorem scan_int_sound s r : isdigit (peek s) = true -> scan_int s = Some r ->
   exists k, valid_iconst k = true /\ spell_iconst k = s.
 Proof.
-  intros Hdig Hkb H. unfold scan_int in H.
+  intros Hdig H. unfold scan_int in H.
+  destruct (doubled_prefix (fst (scan_base s)) (snd (scan_base s))) eqn:Edp; [discriminate|].
   set (res := (fst (scan_base s), fst (strtoul (snd (scan_base s)) (fst (scan_base s))),
                fst (fst (scan_suffix (snd (strtoul (snd (scan_base s)) (fst (scan_base s)))))),
                snd (fst (scan_suffix (snd (strtoul (snd (scan_base s)) (fst (scan_base s)))))))) in H.
@@ -421,11 +456,11 @@ Proof.
                | [] => Some res | _ :: _ => None end = Some res).
   { destruct (snd (scan_suffix (snd (strtoul (snd (scan_base s)) (fst (scan_base s)))))); [reflexivity|discriminate]. }
   clear H. revert H'. generalize res. clear res r. intros r H.
-  unfold scan_base in H.
+  unfold scan_base in H, Edp.
   destruct (caseeq s [48; 120] && isxdigit (nth 2 s 0)) eqn:C16.
   { (* hexadecimal *)
     apply andb_prop in C16. destruct C16 as [Cx Cd].
-    destruct (caseeq_0x s Cx) as [x [t [-> Hx]]]. cbn [nth] in Cd. cbn [fst snd skipn] in H.
+    destruct (caseeq_0x s Cx) as [x [t [-> Hx]]]. cbn [nth] in Cd. cbn [fst snd skipn] in H, Edp.
     destruct t as [|d t']; [discriminate|]. cbn [nth] in Cd.
     assert (Hsk : (16 =? 16) && (peek (d :: t') =? 48) && (toupper (peek (tl (d :: t'))) =? 88) = false).
     { cbn [peek tl]. change (16 =? 16) with true. cbn [andb].
@@ -433,8 +468,7 @@ Proof.
       destruct (toupper (peek t') =? 88) eqn:E88; [|reflexivity].
       apply N.eqb_eq in E48. apply N.eqb_eq in E88. apply toupper_88 in E88. subst d.
       destruct t' as [|y t'']; [cbn in E88; lia|]. cbn [peek] in E88.
-      exfalso. unfold known_bad in Hkb. cbn [caseeq] in Hkb.
-      destruct Hx as [-> | ->], E88 as [-> | ->]; destruct t''; discriminate Hkb. }
+      exfalso. destruct E88 as [-> | ->]; destruct t''; discriminate Edp. }
     assert (Hd : is_base_digit 16 (peek (d :: t')) = true).
     { cbn [peek]. rewrite <- (digit_of_base 16 d); [|unfold radix_ok; tauto]. rewrite hexdig_isxdigit. exact Cd. }
     destruct (scan_tail_inv 16 (d :: t') r ltac:(unfold radix_ok; tauto) Hsk Hd H) as [ds [sfx [Hp [Hne Hds]]]].
@@ -480,32 +514,29 @@ Qed.
 Theorem scan_int_rejects_dot t : scan_int (46 :: t) = None.
 Proof. reflexivity. Qed.
 
-(* acceptance and rejection together, for every byte string that starts with a digit and is
-   not of the 0x0x.. family: convert_pp_int accepts it iff the grammar of 6.4.4.1 generates it *)
-Theorem convert_pp_int_iff s : isdigit (peek s) = true -> known_bad s = false ->
+(* acceptance and rejection together, for every byte string that starts with a digit:
+   convert_pp_int accepts it iff the grammar of 6.4.4.1 generates it *)
+Theorem convert_pp_int_iff s : isdigit (peek s) = true ->
   (convert_pp_int s <> None <-> exists k, valid_iconst k = true /\ spell_iconst k = s).
 Proof.
-  intros Hd Hkb. unfold convert_pp_int. split.
+  intros Hd. unfold convert_pp_int. split.
   - intros H. destruct (scan_int s) as [[[[b v] l] u]|] eqn:E; [|contradiction].
     eapply scan_int_sound; eassumption.
   - intros [k [Hv <-]]. rewrite scan_int_accepts by exact Hv. discriminate.
 Qed.
 
-Corollary convert_pp_int_rejects s : isdigit (peek s) = true -> known_bad s = false ->
+Corollary convert_pp_int_rejects s : isdigit (peek s) = true ->
   recognise_iconst s = None -> convert_pp_int s = None.
 Proof.
-  intros Hd Hkb Hn. destruct (convert_pp_int s) as [r|] eqn:E; [|reflexivity].
+  intros Hd Hn. destruct (convert_pp_int s) as [r|] eqn:E; [|reflexivity].
   assert (H : convert_pp_int s <> None) by (rewrite E; discriminate).
-  apply (convert_pp_int_iff s Hd Hkb) in H. apply recognise_iff in H. contradiction.
+  apply (convert_pp_int_iff s Hd) in H. apply recognise_iff in H. contradiction.
 Qed.
 
-(* the statement without the exclusion is false, and the exclusion is not gratuitous *)
-Theorem convert_pp_int_iff_refuted :
-  exists s, isdigit (peek s) = true /\ known_bad s = true /\ convert_pp_int s = Some (1, TInt) /\
-            forall k, valid_iconst k = true -> spell_iconst k <> s.
-Proof.
-  exists [48; 120; 48; 120; 49]. repeat split.
-  intros k Hv E.
-  assert (H : recognise_iconst [48; 120; 48; 120; 49] <> None) by (apply recognise_iff; exists k; split; assumption).
-  apply H. vm_compute. reflexivity.
-Qed.
+(* the former finding (0x0x1 was accepted as 1 before commit d1a8518), now instances of the
+   theorem: a doubled prefix is refused by model and grammar alike; 0x0b1 is the constant 177 *)
+Example convert_pp_int_doubled_prefix :
+  convert_pp_int [48; 120; 48; 120; 49] = None /\ recognise_iconst [48; 120; 48; 120; 49] = None /\
+  convert_pp_int [48; 88; 48; 88; 49; 102] = None /\ convert_pp_int [48; 98; 48; 98; 49] = None /\
+  convert_pp_int [48; 120; 48; 98; 49] = Some (177, TInt) /\ convert_pp_int [48; 120; 48] = Some (0, TInt).
+Proof. vm_compute. repeat split; reflexivity. Qed.
